@@ -10,6 +10,7 @@ import OvniModel.Lemmas.CoreBayFresh
 import OvniModel.Lemmas.EmitEmu
 import OvniModel.Lemmas.EmitInit
 import OvniModel.Emu.Basic
+import OvniModel.Lemmas.TaskHook
 
 /-!
 # C06 — view consistency: the tracking muxes compute `thView` / `cpuView`
@@ -1369,6 +1370,121 @@ theorem emu_run_emit_driver (threads : List (Int × Int × Nat)) (cpus : List (N
       hinit hfl hiv hd h
   exact ⟨_, b1, bI, lvsI, L0, bF, lvsF, tvsF, freshF, Ls, hc, h1, h2, h3, h4, h5, h6, h7, h8⟩
 
+/-! ### The task layer of nOS-V / Nanos6: no hook hypothesis
+
+`Emu/TaskHook.lean`: `taskHook m P ε ev` = the task / body rules of
+`Emu/Task.lean` (`Ovni.Task.Emu.step`, state `ε` of the thread's process, decoded
+event `ev`) followed by the channel operations `update_task` performs on the
+thread's raw channels, in the order of the C code: subsystem push / pop, then
+`chan_set` of body id, task id, type, app id, rank (Nanos6: task id, type,
+rank).  `modelEvent` passes a hook the category but not the event value, and
+`Emu` has no field for the task state, so the hook is built per event. -/
+
+/-- The task hook satisfies the hook hypothesis: it performs nothing but channel
+    operations on raw channels of the event's thread (`taskHook_simP`: only its
+    task channels). -/
+theorem hooks_in_use_task (m : Ovni.Task.Model) (P : Ovni.Task.ProcInfo) (ε : Ovni.Task.Emu)
+    (ev : Ovni.Task.Ev) : HookSim (taskHook m P ε ev) :=
+  hookSim_task m P ε ev
+
+/-- **emu_event for the models as they run**, task events included: task hook
+    and mark hook as in nOS-V / Nanos6 / ovni — no hook hypothesis. -/
+theorem emu_event_task {e e' : Emu} {b0 b : Bay} {ti mc c v : Nat} {p : List Nat}
+    (tm : Ovni.Task.Model) (P : Ovni.Task.ProcInfo) (ε : Ovni.Task.Emu) (tev : Ovni.Task.Ev) (tab : List MarkType)
+    (hc : e.shape.connect = .ok b0) (hs : Shaped e) (hi : Inv b0 e b)
+    (h : modelEvent e ti mc c v p (taskHook tm P ε tev) (fun e ti _ v p => markEvent tab e ti v p) = .ok e') :
+    ∃ b1 bF em, Bay.Writes (· < e.shape.L) b b1 ∧ Mirrors e' b1 ∧ b1.propagate = .ok (bF, em) ∧
+      Shaped e'.flushAll ∧ e'.flushAll.shape = e.shape ∧ Inv b0 e'.flushAll bF ∧
+      (∀ (g k i : Nat) (t' : Thread) (ms : ModelSpec), e'.threads[g]? = some t' →
+        e.specs[k]? = some ms → i < ms.nch →
+        (bF.chan (e.shape.thOut g k i)).cur = thView t' ms i) ∧
+      (∀ (cg k i : Nat) (x' : Cpu) (ms : ModelSpec), e'.cpus[cg]? = some x' →
+        e.specs[k]? = some ms → i < ms.nch →
+        (bF.chan (e.shape.cpuOut cg k i)).cur = cpuView e' x' ms i ∨
+        (x'.chThrun.cur = .null ∧ (bF.chan (e.shape.cpuOut cg k i)).cur = .null ∧ ms.cpuDflt i ≠ .null)) :=
+  emu_event (hookSim_task tm P ε tev) (hookSim_mark tab) hc hs hi h
+
+/-- One event of a history with the task layer: the raw event and, for a task
+    event, its decoded form (`none`: not a task event; the hook is then `noHook`). -/
+abbrev EvT := Ev × Option Ovni.Task.Ev
+
+/-- the task hook of an event (`noHook` when it is not a task event) -/
+def hookOf (tm : Ovni.Task.Model) (P : Ovni.Task.ProcInfo) (ε : Ovni.Task.Emu) :
+    Option Ovni.Task.Ev → Emu → Nat → Nat → Nat → List Nat → Except Err Emu
+  | some x => taskHook tm P ε x
+  | none => fun _ _ _ _ _ => .error .unknownEvent
+
+/-- the task state after an event -/
+def advanceT (tm : Ovni.Task.Model) (P : Ovni.Task.ProcInfo) (ε : Ovni.Task.Emu) : Option Ovni.Task.Ev → Ovni.Task.Emu
+  | some x => (match Ovni.Task.Emu.step tm P ε x with | .ok ε' => ε' | .error _ => ε)
+  | none => ε
+
+theorem hookSim_hookOf (tm : Ovni.Task.Model) (P : Ovni.Task.ProcInfo) (ε : Ovni.Task.Emu)
+    (tev : Option Ovni.Task.Ev) : HookSim (hookOf tm P ε tev) := by
+  cases tev with
+  | some x => exact hookSim_task tm P ε x
+  | none => exact hookSim_none
+
+/-- The reference emulator with the task layer of one process (model `tm`,
+    process info `P`) on a list of events: per event `stepEv` with the task hook
+    built from the current task state, which is then advanced by
+    `Ovni.Task.Emu.step`. -/
+def replayT (tm : Ovni.Task.Model) (P : Ovni.Task.ProcInfo) (tab : List MarkType) :
+    Emu → Ovni.Task.Emu → List EvT → Except Err (Emu × Ovni.Task.Emu × List PrvRec)
+  | e, ε, [] => .ok (e, ε, [])
+  | e, ε, evt :: evs =>
+    match stepEv e evt.1.1 evt.1.2.1 evt.1.2.2.1 evt.1.2.2.2.1 evt.1.2.2.2.2 (hookOf tm P ε evt.2)
+        (fun e ti _ v p => markEvent tab e ti v p) with
+    | .error x => .error x
+    | .ok (e1, rs) =>
+      match replayT tm P tab e1 (advanceT tm P ε evt.2) evs with
+      | .error x => .error x
+      | .ok (eF, εF, rs') => .ok (eF, εF, rs ++ rs')
+
+/-- **emu_history with the task layer and the emit phase**: for ANY history
+    accepted by the reference emulator running the task hook (nOS-V or Nanos6
+    task events included) and the mark hook, the bay run with the PRV callbacks
+    exists, and `Inv`, `FreshInv`, `EmitInv` hold at the end.  No hook
+    hypothesis. -/
+theorem emu_history_task (tm : Ovni.Task.Model) (P : Ovni.Task.ProcInfo) (tab : List MarkType) (evs : List EvT) :
+    ∀ {e eF : Emu} {ε εF : Ovni.Task.Emu} {b0 b : Bay} {rs : List PrvRec} {fresh : Nat → Bool}
+      {lvs : List (Option Value)} {tvs : List Int},
+    e.shape.connect = .ok b0 → Shaped e → Inv b0 e b → FreshInv e.shape b fresh →
+    EmitInv e.shape.regs lvs tvs b → SpecFlagsOk e.specs → CpuDfltOk e.specs →
+    replayT tm P tab e ε evs = .ok (eF, εF, rs) →
+    ∃ bF lvsF freshF Ls, RoundsP e.shape.regs (· < e.shape.L) (b, lvs) Ls (bF, lvsF) ∧ Ls.length = evs.length ∧
+      Shaped eF ∧ eF.shape = e.shape ∧ Inv b0 eF bF ∧ FreshInv e.shape bF freshF ∧
+      EmitInv e.shape.regs lvsF (Ls.foldl tvStep tvs) bF := by
+  induction evs with
+  | nil =>
+    intro e eF ε εF b0 b rs fresh lvs tvs hc hs hi hf hE _ _ h
+    injection h with h; injection h with h1 _
+    subst h1
+    exact ⟨b, lvs, fresh, [], .nil _, rfl, hs, rfl, hi, hf, hE⟩
+  | cons ev evs ih =>
+    intro e eF ε εF b0 b rs fresh lvs tvs hc hs hi hf hE hfl hd h
+    rw [replayT] at h
+    split at h
+    · cases h
+    · rename_i e2 rs1 hstep
+      split at h
+      · cases h
+      · rename_i eF' εF' rs2 hrest
+        injection h with h; injection h with h1 _
+        subst h1
+        obtain ⟨e1, hme, hrec, rfl⟩ := stepEv_ok hstep
+        obtain ⟨_, v, _, hv, _⟩ := (records_split e e1).1 _ hrec
+        obtain ⟨b1, b2, em, hw, _, _, hs1, hsh1, hi1, hf1, _, _, h3, h4, _⟩ :=
+          emu_event_emit (hookSim_hookOf tm P ε ev.2) (hookSim_mark tab) hc hs hi hf hE hfl hme
+        obtain ⟨vr, hvr⟩ := h4 hd v hv
+        obtain ⟨lvs', L, _, hpp, _, _, hE1⟩ := h3 vr hvr
+        have hspecs1 : e1.flushAll.specs = e.specs := congrArg Shape.specs hsh1
+        obtain ⟨bF, lvsF, freshF, Ls, hr, hlen, hsF, hshF, hiF, hfF, hEF⟩ :=
+          ih (hsh1.symm ▸ hc) hs1 hi1 (hsh1.symm ▸ hf1) (hsh1.symm ▸ hE1) (hspecs1.symm ▸ hfl)
+            (hspecs1.symm ▸ hd) hrest
+        rw [hsh1] at hr hfF hEF
+        exact ⟨bF, lvsF, freshF, L :: Ls, .cons hw hpp hr, by simp [hlen], hsF, hshF.trans hsh1, hiF, hfF, hEF⟩
+
 /-
 -- OPEN (what is left of the last composition step).
 --
@@ -1431,9 +1547,17 @@ theorem emu_run_emit_driver (threads : List (Int × Int × Nat)) (cpus : List (N
 --      state row; that a dirty system channel never holds its `last_value` again is not
 --      proved here (the channels are not ALLOW_DUP, so `chan_set` refuses or ignores the
 --      value; covered by X2).
---  (4) The task layer of nOS-V / Nanos6 (`VT*`, `VY*`, `6T*`, `6Y*`) is a hook of
---      `modelEvent` (`Emu/Task.lean` has its own state); for it `HookSim` is a hypothesis
---      (`hooks_in_use`: it holds for the hooks the driver runs, `noHook` and `markEvent`).
+--  (4) The task layer of nOS-V / Nanos6 (`VT*`, `VY*`, `6T*`, `6Y*`): `HookSim` is now
+--      PROVED for the task hook (`Emu/TaskHook.lean`, `hooks_in_use_task`, `emu_event_task`,
+--      `emu_history_task`).  What stays open there: the hook keeps the task layer's own copy
+--      of the task channels (`Ovni.Task.Emu.ch` / `.ss`, on which `Ovni.Task.Emu.step` runs
+--      its duplicate checks and `enforce_task_rules`) next to the thread's real channels in
+--      `Emu`; that the two agree along a history (a coupling invariant between `ε` and the
+--      raw channels) is not proved, so the hook may refuse an event the C code accepts only
+--      if they ever disagreed.  `modelEvent` does not pass the event value to the hook and
+--      `Emu` has no task state: the hook is a per-event closure (`replayT`), and the decoding
+--      of payloads into `Ovni.Task.Ev` is the caller's.  The driver (`Drivers/Emu.lean`)
+--      still runs `noHook`; C07's check drives the task layer through its own driver.
 --  (5) `emu_init` / `emu_run` keep three side conditions on the spec list (accepted
 --      tracking modes so that `Shape.connect` succeeds — `bayOf_connects`; distinct model
 --      characters; connect-time values on single channels) and "at least one thread".
@@ -1840,5 +1964,41 @@ example : ∃ eF rs bF lvsF tvsF freshF, replay exNoHook exNoHook exEmu exHist =
     exact ⟨eF, rs, bF, lvsF, tvsF, freshF, rfl, hiF, hfF, hEF⟩
 
 example : exEmu.shape.regs.length = 32 ∧ (exEmu.shape.regs.map (·.chan)).Nodup := by decide
+
+/-! ### Non-vacuity of the task-layer theorems
+
+`exEmu` (ovni + nOS-V), process with app id 1 and no rank.  History: thread 0
+starts (`OHx`), a task type and a task are created (`VYc`, `VTc`: no channel
+write), the task runs and ends on thread 0 (`VTx`: subsystem push + body id,
+task id, type, app id; `VTe`: pop + the four set to null), the thread ends. -/
+
+def exHistT : List EvT :=
+  [((0, 79, 72, 120, [0, 0, 0, 0]), none),
+   ((0, 86, 89, 99, []), some (.typeCreate 1 7 true)),
+   ((0, 86, 84, 99, []), some (.taskCreate false 1 1)),
+   ((0, 86, 84, 120, []), some (.task 0 .x 1 0)),
+   ((0, 86, 84, 101, []), some (.task 0 .e 1 0)),
+   ((0, 79, 72, 101, []), none)]
+
+theorem exHistT_accepted :
+    (match replayT .nosv ⟨1, -1⟩ [] exEmu Ovni.Task.Emu.init exHistT with
+      | .ok r => decide (r.2.2.length = 36)
+      | .error _ => false) = true := by decide
+
+/-- All hypotheses of `emu_init_emit` and `emu_history_task` hold for the
+    history with task events; hence the bay run with the PRV callbacks exists and
+    the invariants hold at the end — without any hook hypothesis. -/
+example : ∃ eF εF rs bF lvsF tvsF freshF, replayT .nosv ⟨1, -1⟩ [] exEmu Ovni.Task.Emu.init exHistT = .ok (eF, εF, rs) ∧
+    Inv exEmuBay eF bF ∧ FreshInv exEmu.shape bF freshF ∧ EmitInv exEmu.shape.regs lvsF tvsF bF := by
+  cases h : replayT .nosv ⟨1, -1⟩ [] exEmu Ovni.Task.Emu.init exHistT with
+  | error x => have := exHistT_accepted; rw [h] at this; cases this
+  | ok r =>
+    obtain ⟨eF, εF, rs⟩ := r
+    obtain ⟨hfl, hiv, hd⟩ := driver_emit_conditions [79, 86] []
+    obtain ⟨hs, _, bI, lvsI, tvsI, _, _, _, hi, hf, hE⟩ :=
+      emu_init_emit _ _ _ _ _ exEmuBay_connect (by decide) exEmu_chars exEmu_initSingle hfl hiv
+    obtain ⟨bF, lvsF, freshF, Ls, _, _, _, _, hiF, hfF, hEF⟩ :=
+      emu_history_task .nosv ⟨1, -1⟩ [] exHistT exEmuBay_connect hs hi hf hE hfl hd h
+    exact ⟨eF, εF, rs, bF, lvsF, _, freshF, rfl, hiF, hfF, hEF⟩
 
 end Ovni.Props.C06
